@@ -14,6 +14,8 @@ mod filters;
 mod sealed;
 mod vertex_info;
 
+#[cfg(feature = "trustfall_verif")]
+pub use candidates::NullableValue as VerifNullableValue;
 pub use candidates::{CandidateValue, Range};
 pub use dynamic::DynamicallyResolvedValue;
 pub use vertex_info::{RequiredProperty, VertexInfo};
